@@ -74,7 +74,7 @@ def _norm_request(req):
     return r
 
 
-def drive(g):
+def drive(g, sync=False):
     """-> {operation: (request payload, plain result)}"""
     sent = []
 
@@ -83,15 +83,18 @@ def drive(g):
         sent.append(body)
         return httpx.Response(200, json={"data": RESPONSES[body["operationName"]]})
     mod = g.module("client")
-    client = mod.Client(url="http://x/graphql", http_client=httpx.AsyncClient(transport=httpx.MockTransport(handler)))
+    http = httpx.Client(transport=httpx.MockTransport(handler)) if sync else httpx.AsyncClient(transport=httpx.MockTransport(handler))
+    client = mod.Client(url="http://x/graphql", http_client=http)
     inputs = g.module("input_types")
     out = {}
     calls = {"GetMe": ("get_me", {}), "GetUsers": ("get_users", {"f": inputs.Filter(name="a")}), "GetActor": ("get_actor", {}),
              "GetStamp": ("get_stamp", {}), "GetTwo": ("get_two", {}), "Nested": ("nested", {}), "ViaFragment": ("via_fragment", {}),
              "Find": ("find", {"query": "needle", "variables": 3})}
     for op, (meth, kw) in calls.items():
-        res = asyncio.run(getattr(client, meth)(**kw))
+        res = getattr(client, meth)(**kw) if sync else asyncio.run(getattr(client, meth)(**kw))
         out[op] = (_norm_request(sent[-1]), _plain(res))
+    if sync:
+        return out          # (a synchronous client has no subscriptions)
     # the subscription, against a scripted connection: the subscribe frame is its request, the yielded items its result
     from unittest import mock
     from . import lib_fakes as F
@@ -116,9 +119,17 @@ def drive(g):
 CUSTOM_OPERATIONS = "+custom-operations"     # pseudo entry of a combination: the same plugins next to enable_custom_operations
 
 
+SYNC_CLIENT = "+sync-client"                # pseudo entry: the same plugins with async_client = false (operations without the subscription)
+PSEUDO = (CUSTOM_OPERATIONS, SYNC_CLIENT)
+
+
 def _generate(plugins):
     opts = dict(enable_custom_operations=True) if CUSTOM_OPERATIONS in plugins else {}
-    return generate_client(SCHEMA, QUERIES, plugins=[PLUGINS[p] for p in plugins if p != CUSTOM_OPERATIONS],
+    queries = QUERIES
+    if SYNC_CLIENT in plugins:
+        opts["async_client"] = False
+        queries = "\n".join(l for l in QUERIES.splitlines() if not l.startswith("subscription "))
+    return generate_client(SCHEMA, queries, plugins=[PLUGINS[p] for p in plugins if p not in PSEUDO],
                            scalars={"DateTime": {"type": "datetime.datetime"}}, **opts)
 
 
@@ -184,13 +195,14 @@ def check_combo(plugins, baseline=None):
     rep = dict(inputs={"plugins": list(plugins)}, failed=[], undetermined=[], pre_ok=True, outcome={}, error=None)
     g0 = g = None
     try:
+        sync = SYNC_CLIENT in plugins
         if baseline is None:
-            g0 = _generate(())
-            baseline = drive(g0)
+            g0 = _generate((SYNC_CLIENT,) if sync else ())
+            baseline = drive(g0, sync)
         g = _generate(plugins)
         if "NoReimports" not in plugins:
             g.module()
-        got = drive(g)
+        got = drive(g, sync)
         for op, (req0, res0) in baseline.items():
             req, res = got[op]
             if req != req0:
@@ -224,7 +236,7 @@ def check_combo(plugins, baseline=None):
                 open(os.path.join(tmp, "queries.graphql"), "w").write(QUERIES)
                 cfg = dict(schema_path=os.path.join(tmp, "schema.graphql"), queries_path=os.path.join(tmp, "queries.graphql"), include_comments="none",
                            target_package_path=gx.root, target_package_name=gx.pkg_name, scalars={"DateTime": {"type": "datetime.datetime"}},
-                           plugins=[PLUGINS[p] for p in plugins if p != CUSTOM_OPERATIONS])
+                           plugins=[PLUGINS[p] for p in plugins if p not in PSEUDO])
                 with contextlib.redirect_stdout(io.StringIO()):
                     _client({"tool": {"ariadne-codegen": cfg}})
                 if gx.read("__init__.py").strip():
@@ -247,9 +259,11 @@ def combos(tier):
     out = [(n,) for n in names]
     out += [("NoReimports", "ExtractOperations"), ("ExtractOperations", "NoReimports"), ("ShorterResults", "ExtractOperations"),
             ("ExtractOperations", "ShorterResults"), ("ShorterResults", "ClientForwardRefs"), ("ClientForwardRefs", "ShorterResults"),
-            ("ClientForwardRefs", CUSTOM_OPERATIONS), ("ShorterResults", "ExtractOperations", CUSTOM_OPERATIONS)]
+            ("ClientForwardRefs", CUSTOM_OPERATIONS), ("ShorterResults", "ExtractOperations", CUSTOM_OPERATIONS),
+            # the same plugins on a synchronous client (its methods are plain functions)
+            ("ShorterResults", SYNC_CLIENT), ("ClientForwardRefs", SYNC_CLIENT), ("ExtractOperations", "ShorterResults", SYNC_CLIENT)]
     if tier == "thorough":
-        out = [c for n in range(1, 5) for c in itertools.permutations(names, n)] + [(n, CUSTOM_OPERATIONS) for n in names]
+        out = [c for n in range(1, 5) for c in itertools.permutations(names, n)] + [(n, CUSTOM_OPERATIONS) for n in names] + [(n, SYNC_CLIENT) for n in names]
     return out
 
 
